@@ -960,8 +960,13 @@ class _DefaultContext(Context):
     ) -> TypeAlias:
         if self.visitor is not None:
             cache = self.visitor.checker.type_alias_cache
-            if key in cache:
-                return cache[key]
+            try:
+                if key in cache:
+                    return cache[key]
+            except TypeError:
+                # e.g. Alias[int, [int]] for a ParamSpec parameter: the subscripted
+                # alias holds a list and cannot be a cache key
+                return super().get_type_alias(key, evaluator, evaluate_type_params)
             alias = super().get_type_alias(key, evaluator, evaluate_type_params)
             cache[key] = alias
             return alias
